@@ -63,7 +63,7 @@ def main():
     except vf.BuildError as e:
         chk.violation("build failed: %s" % str(e)[:300], {"kind": "build", "log": str(e)}, found_input=False)
         chk.finish(rule="build failed")
-    n = 30000 if chk.tier == "thorough" else 2500
+    n = 200000 if chk.tier == "thorough" else 2500
     corpus_f = os.path.join(vf.VERIF, "corpus", "C03", "cases.txt")
     corpus = [l.rstrip("\n") for l in open(corpus_f)] if os.path.exists(corpus_f) else []
     cases = corpus + [lc.gen_case(chk.rng, "mixed" if k % 3 else "timers") for k in range(n)]
